@@ -14,6 +14,7 @@ names = [
  ('traversal_once', "traversal_once.  One GetBegin()..GetEnd() traversal (pvInc/pvMove across buckets and generations) is a permutation of the contents without repetition: every element visited exactly once."),
  ('iterator_traversal_once', "traversal_once for the ITERATOR STATE MACHINE (pvInc / pvMove, HashSet.h:349-383: bucket index, position inside the bucket, switch to mNextBuckets): started at GetBegin() in any state satisfying Inv -- any number of coexisting generations -- it needs exactly mCount increments, visits a duplicate-free permutation of the contents and then equals the end iterator (termination)."),
  ('find_buckets_returns_owner', "pvFindBuckets as coded (HashSet.h:1220-1237: single-table shortcut, else walk the generations newest first, skip those with bucketIndex >= bucket count, test whether the bucket iterator lies in the address range of that bucket) returns the generation in which pvFind found the item -- so pvRemove (which the model routes through it) acts on the right table in every multi-generation state.  Memory-model assumption: item storage of different buckets/generations is disjoint."),
+ ('remove_if_any_state', "Remove(filter) = `iter = GetBegin(); while (iter) { if (filter(item)) iter = Remove(iter); else ++iter; }` with Remove(iter) = pvRemove (generation through pvFindBuckets, last item of the bucket moved into the hole, iterator re-created at the hole and pvInc'ed), run in ANY state satisfying Inv, across all coexisting generations: it terminates without assertion, removes exactly the elements satisfying the filter, returns their number, keeps Inv, the chain and the capacity.  (Also part of C11_history_refines_set now.)"),
  ('removable', "removable.  In every state satisfying Inv (e.g. an interrupted migration with 3 generations) Remove(key) of a present key succeeds, removes exactly that key, keeps Inv and the chain; afterwards the key is not found."),
  ('history_refines_set', """all histories refine the abstract set.  Along every history with every failure schedule, each result is the one a
    mathematical set would give: Insert says inserted iff the key was absent (or fails with the set unchanged), Find/Remove
@@ -25,6 +26,16 @@ names = [
    table (capacity and number of generations not increased, Inv kept, the key is in) as soon as SOME bucket among the
    bucketCount probes of the key's path is not full; it throws "Hash table is full" with the state unchanged exactly when
    every one of them is full."""),
+ ('insert_fails_only_if_every_slot_on_probe_path_taken', """the clause of the property as stated: when the table has to grow and the memory manager refuses the new bucket array, a
+   single-element insertion of a new key (1) succeeds on the existing table as soon as ANY bucket of that table has a free
+   slot, (2) answers "Hash table is full" (state unchanged) ONLY IF every bucket of the table is full, i.e. literally every
+   slot is taken (at least maxCount * bucketCount items in it), and (3) does answer "full" in that case.  The probe path of
+   pvAddNogrow is the whole table: kind_ok2 (proved below for linear AND triangular probing, the latter by the
+   number-theoretic coverage theorem copied from C13 into ProbeSeq.v)."""),
+ ('granted_growth_after_refusals', """interplay with the size loop of pvAddGrow (/repo 7a001ad): after ANY history followed by ANY number k of consecutive
+   refused growths (fallback insertions overloading the table, or "full"), one granted failure-free insertion at a growth
+   point succeeds, picks a table that is large enough (mCount <= mCapacity <= physical size), migrates every element of
+   every older generation and leaves exactly ONE generation with the same contents plus the new key."""),
  ('later_ops_complete_migration_thm', """later_ops_complete_migration.  From any state satisfying Inv whose capacity does not exceed the physical size of the
    newest table (true for every reachable state: next theorem), failure-free insertions of fresh keys never terminate the
    process and ALL succeed; after more than max(0, mCapacity - mCount) of them (at the latest at the next growth) the chain
@@ -35,7 +46,9 @@ names = [
  ('reachable_cap_ok', "the premise CapOk of the previous theorem (mCapacity <= physical size of the newest table) holds in every state reachable from the empty container that has a table, for every history and failure schedule."),
  ('insert_never_fails_check', "since the fix of pvAddGrow (size loop instead of MOMO_CHECK(newCapacity > mCount)): in every reachable state, whatever failed before, no insertion ends in a capacity-check failure (model result RCheck), i.e. an overloaded table can always try to grow again."),
  ('concrete_kind_ok', "the hypotheses kind_ok hold for the concrete kinds used by the extracted model (mask start index, linear and triangular probing, exact max-probe bound, both growth policies)."),
- ('linear_kind_ok2', "kind_ok2 holds for linear probing (LimP4 / One) with both capacity policies (for triangular probing the coverage part is theorem C13_open2n2_probe_sequence_complete)."),
+ ('linear_kind_ok2', "kind_ok2 holds for linear probing (LimP4 / One) with both capacity policies (triangular probing: next theorem)."),
+ ('tri_kind_ok2', "kind_ok2 holds for triangular probing (Open2N2 / Open8) on power-of-two tables: every bucket is reached within bucketCount probes (tri_inj + pigeonhole, ProbeSeq.v copied from C13)."),
+ ('concrete_kind_ok2', "hence kind_ok2 for every configuration of the extracted model."),
  ('concrete_kind_ok3', "kind_ok3 holds for both capacity policies (HashBucketBase: 5/8, 3/2, 2 per bucket; open addressing: 11/12 and 13/14 of the slots)."),
  ('cfg_all_histories', "the two main theorems instantiated at cfg_run = exactly the extracted function that is compared with the real momo containers on every run."),
  ('ex_three_generations', "non-vacuity: a concrete history (Open2N2<3>, refused growth + interrupted migrations) reaches THREE coexisting generations holding 4, 6 and 4 items; all 14 keys are found."),
